@@ -16,4 +16,19 @@ PROPS = {
                     "after every key (hook VerifKeyCacheOrder) with the model, scribbles the source bytes of every key.",
         assumptions=["Go map semantics; string(in) copies", "the unfolder passes keyCache.get(key) straight to OnKey (checked by the oracle on the unfolded map)"],
     ),
+    "C05": dict(
+        trusted_base=COMMON_TB + [
+            "specification: SF/Cbor/Cst.lean (Item, wire, value, events, reference decoder) read against RFC 7049 section 2; appendix-A vectors as kernel-evaluated examples",
+            "model: SF/Cbor/Parse.lean mirrors cborl/parse.go function by function (after the fixes F01 F03 F05 F08 F09)"],
+        explanation="Theorem parse_supported: for every stream of well-formed items of the supported subset (any argument width, "
+                    "definite/indefinite nesting, all lengths) cborl.Parse on the wire bytes accepts, delivers exactly the specified "
+                    "events and ends idle; parse_supported_value: the events build the RFC value; refuse_*: tags, half floats, "
+                    "indefinite strings, non-text keys, negatives below -2^63, reserved codes yield errors and no event. "
+                    "Proof: mutual structural induction over items (SF/Proofs/CborRefine.lean), no bound on size or depth. "
+                    "Correspondence: op `parse cbor` on foreign-encoder style documents (non-minimal widths, indefinite containers, "
+                    "byte strings, undefined), all four entry points, random chunkings, every unsupported feature nested; "
+                    "oracle = the reference decoder of the specification on the same bytes.",
+        assumptions=["the mirror is the code only as far as the differential correspondence shows (sampling)",
+                     "RFC 7049 reading of DESIGN appendix A.4 (bytes as element-wise arrays, undefined as null)"],
+    ),
 }
